@@ -276,6 +276,39 @@ def cli_sample(arg):
                 out["violations"].append({"key": "C20:cli-traceback-on-name", "msg": "name %r: traceback %s" % (nm, r.err[-300:]), "witness": W})
             elif ok != (r.code == 0):
                 out["violations"].append({"key": "C20:name-grammar-mismatch", "msg": "COND file with task name %r: cond run --check exit %s, grammar says %s" % (nm, r.code, "valid" if ok else "invalid"), "witness": W})
+    # identifiers also enter through the index of an archive: a row naming a task by a string outside the
+    # grammar must make `cond restore` fail instead of being accepted as an identifier
+    if strings and strings[0] == "//:a":
+        import sqlite3
+        import subprocess
+        from .. import realrun
+        with common.Scratch("cv20r") as sc:
+            src = realrun.Project(sc.sub("s"), [gen.mk_task("exp", "e", "run_experiment")], {"//exp:e": {"steps": [["file", "o", realrun.b64(b"x")]]}}, name="s")
+            src.cond(["run", "//exp:e"], timeout=60)
+            good = os.path.join(sc.root, "good.tar.gz")
+            src.cond(["archive", "-o", good], timeout=60)
+            for bad in ["//exp :e", "//exp:e\n", "//a:b:e", "exp:e", "//exp.x:e", "//exp:e.f"]:
+                work = sc.sub()
+                subprocess.run(["tar", "xzf", good, "-C", work], check=True)
+                c = sqlite3.connect(os.path.join(work, "version_index_archive.sqlite"))
+                c.execute("DELETE FROM version_index")
+                c.execute("INSERT INTO version_index (task_identifier, timestamp, git_commit_hash, has_uncommitted_changes) VALUES (?, 777, NULL, 0)", (bad,))
+                c.commit()
+                c.close()
+                path_part, _, name_part = (bad[2:] if bad.startswith("//") else bad).rpartition(":")
+                try:
+                    os.makedirs(os.path.join(work, path_part, "%s.task.777" % name_part), exist_ok=True)
+                    open(os.path.join(work, path_part, "%s.task.777" % name_part, "f"), "w").write("x")
+                except (OSError, ValueError):
+                    continue
+                arch = os.path.join(work, "bad.tar.gz")
+                subprocess.run(["tar", "czf", arch, "-C", work] + sorted(x for x in os.listdir(work) if x != "bad.tar.gz"), check=True)
+                dst = realrun.Project(sc.sub(), [gen.mk_task("exp", "e", "run_experiment")], {}, name="d")
+                r = dst.cond(["restore", arch], timeout=60)
+                out["reach"]["c20_restore_identifier_checks"] = out["reach"].get("c20_restore_identifier_checks", 0) + 1
+                rows = dst.rows()
+                if r.code == 0 or (isinstance(rows, list) and any(x[0] == bad for x in rows)):
+                    out["violations"].append({"key": "C20:restore-accepts-malformed-identifier", "msg": "cond restore accepted an archive index row naming the task %r (exit %s, rows %s)" % (bad, r.code, rows), "witness": {"engine": "cli", "string": bad, "result": cli.brief(r)}})
     out["sample"] = {"cli_strings": strings[:8]}
     return out
 
